@@ -838,6 +838,15 @@ func c01Scenarios(res *eng.Result, ss *sigSet) {
 		{"max-elements", "leaf-list", "ll", "max-elements 5;", "max-elements 6;", false},
 		{"max-elements-list", "list", "li", "max-elements 5;", "max-elements 6;", false},
 		{"must", "leaf", "l", `must "a";`, `must "b";`, true},
+		// the other direction of every two-valued property, and the unbounded forms
+		{"config-leaf-on-to-off", "leaf", "l", "config true;", "config false;", false},
+		{"mandatory-on-to-off", "leaf", "l", "mandatory true;", "mandatory false;", false},
+		{"min-elements-to-zero", "leaf-list", "ll", "min-elements 2;", "min-elements 0;", false},
+		{"max-elements-to-unbounded", "leaf-list", "ll", "max-elements 5;", "max-elements unbounded;", false},
+		{"max-elements-from-unbounded", "leaf-list", "ll", "max-elements unbounded;", "max-elements 7;", false},
+		{"max-elements-list-to-unbounded", "list", "li", "max-elements 5;", "max-elements unbounded;", false},
+		{"max-elements-list-from-unbounded", "list", "li", "max-elements unbounded;", "max-elements 7;", false},
+		{"default-to-empty", "leaf", "l", `default "1";`, `default "";`, false},
 	}
 	body := func(p rprop, stmt string) string {
 		switch p.kind {
